@@ -1,4 +1,6 @@
-import TnVerif.Props.C04
+import TnVerif.Lemmas.RankSelect
+import TnVerif.Model.Round
+import Mathlib.Tactic.Ring
 import Mathlib.Algebra.BigOperators.Ring.Finset
 import Mathlib.Algebra.BigOperators.Intervals
 import Mathlib.Tactic.IntervalCases
@@ -7,7 +9,7 @@ import Mathlib.Tactic.IntervalCases
 
 `SVDok`: `M = U·diag(S)·Vh` with `UᵀU = I` (on the first `n` columns).  Then the factor `Uᵀ_r M` the
 routine computes for `left_ortho=True` is `diag(S_r)·Vh_r`, i.e. `left·right` **is** the rank-`r`
-truncation `U_r diag(S_r) Vh_r`; the rank is the smallest one meeting the budget (C04.leastRank_minimal);
+truncation `U_r diag(S_r) Vh_r`; the rank is the smallest one meeting the budget (TN.leastRank_minimal);
 if the tail at the requested rank is zero nothing is discarded (exact reproduction).
 -/
 namespace TN.C05
@@ -40,11 +42,11 @@ theorem truncation_right_factor (m n cols : Nat) (M U : Nat → Nat → K) (S : 
 /-- **smallest rank meeting the budget** and its bounds (restated from C04 for the matrix routine) -/
 theorem rank_minimal (S2 : List K) (d2 : K) (hd : 0 ≤ d2) :
     tailSum S2 (leastRank S2 d2 S2.length 0) ≤ d2 ∧ ∀ r, r < leastRank S2 d2 S2.length 0 → ¬ tailSum S2 r ≤ d2 :=
-  C04.leastRank_minimal S2 d2 hd
+  TN.leastRank_minimal S2 d2 hd
 
 /-- the returned rank never exceeds the request -/
 theorem rank_le_request (S2 : List K) (d2 : K) (rmax : Nat) (h : 1 ≤ rmax) : rankSelect S2 d2 rmax ≤ rmax :=
-  (C04.rankSelect_bounds S2 d2 rmax).2.1 h
+  (TN.rankSelect_bounds S2 d2 rmax).2.1 h
 
 /-- **exact on low-rank input**: if the squared singular values beyond position `r` are all zero, the
     discarded tail at rank `r` is zero — nothing is lost at that rank -/
@@ -65,7 +67,7 @@ theorem tail_zero_of_low_rank (S2 : List K) : ∀ r, (∀ i, r ≤ i → S2.getD
 /-- hence a zero budget already selects a rank `≤ r` for input of rank `≤ r` -/
 theorem exact_rank (S2 : List K) (r : Nat) (h : ∀ i, r ≤ i → S2.getD i 0 = 0) : leastRank S2 0 S2.length 0 ≤ r := by
   by_contra hc
-  have := (C04.leastRank_minimal S2 0 (le_refl _)).2 r (by omega)
+  have := (TN.leastRank_minimal S2 0 (le_refl _)).2 r (by omega)
   exact this (by rw [tail_zero_of_low_rank S2 r h])
 
 /-- the discarded tail as a finite sum: `tailSum S r = Σ_{r ≤ l < |S|} S_l` -/
@@ -158,7 +160,7 @@ theorem truncated_svd_within_budget (m n cols : Nat) (M U : Nat → Nat → K) (
   intro S2 r
   have hlen : S2.length = n := by simp [S2]
   have hr : r ≤ n := by
-    have := (C04.leastRank_spec S2 d2 S2.length 0).2.1
+    have := (TN.leastRank_spec S2 d2 S2.length 0).2.1
     omega
   have e : ∀ i ∈ range m, ∀ j ∈ range cols, (M i j - ∑ l ∈ range r, U i l * (∑ i' ∈ range m, U i' l * M i' j))
       = (M i j - ∑ l ∈ range r, U i l * (S l * Vh l j)) := by
@@ -168,7 +170,7 @@ theorem truncated_svd_within_budget (m n cols : Nat) (M U : Nat → Nat → K) (
     rw [truncation_right_factor m n cols M U S Vh h.toSVDok l j (by have := Finset.mem_range.mp hl; omega) (Finset.mem_range.mp hj)]
   rw [Finset.sum_congr rfl (fun i hi => Finset.sum_congr rfl (fun j hj => by rw [e i hi j hj]))]
   rw [truncation_error m n cols M U S Vh h r hr]
-  have t : tailSum S2 r ≤ d2 := (C04.leastRank_minimal S2 d2 hd).1
+  have t : tailSum S2 r ≤ d2 := (TN.leastRank_minimal S2 d2 hd).1
   rw [tailSum_eq_sum, hlen] at t
   refine le_of_eq_of_le ?_ t
   apply Finset.sum_congr rfl; intro l hl
